@@ -15,3 +15,8 @@ CHECKS['C03'] = ('model_checking',
   'For every inheritance shape (absent / no-reaches / -> / +> at each of 4-6 levels incl. siblings) the real language graph is driven through every operation (resolve each type, regenerate, rebuild, build classes, generate attack graphs); the search closes at depth 1 with one state per language iff the lookup is pure, which covers histories of any length; every answer is compared with two independently written formulations of the root-down fold.',
   'Trusted: the 30-line reference fold (two formulations cross-checked). Metadata carried by redefinitions is not compared.',
   'DESIGN.md 3/C03')
+CHECKS['C02'] = ('model_checking',
+  'bounded-exhaustive enumeration of (language, model) pairs executed on the real generator, node set / attributes / lookups compared with reference fold and set semantics',
+  'Every INH inheritance shape x 8 step kinds (or/and/defense with every TTC form/exist/notExist, tags, MITRE) x models with every name/id/defense-value combination (incl. rename collisions, names containing ":"), plus exist/notExist steps whose requirement is every well-typed expression up to the bound over every SEM model up to the bound: node set, attributes, defense/existence status, unique ids and full names, lookups by id and full name.',
+  'Trusted: reference fold and reference set semantics. Conflicting metadata on re-declarations is not ranked (every re-declaration repeats type/TTC/tags/meta).',
+  'DESIGN.md 3/C02')
